@@ -21,7 +21,8 @@ def collect_checks():
     for f in sorted(os.listdir(d)):
         if f.startswith('c') and f.endswith('.py'):
             mod = importlib.import_module('vf.checks.' + f[:-3])
-            if hasattr(mod, 'MANIFEST'):
+            props = os.path.join(paths.COQ, 'theories', 'Props', f[:-3].upper() + '.v')
+            if hasattr(mod, 'MANIFEST') and os.path.exists(props):
                 out[f[:-3].upper()] = mod.MANIFEST
     return out
 
